@@ -96,6 +96,8 @@ func runScen(s Scen) (res result) {
 		return runHitAndRun(s)
 	case "preseed-instant":
 		return runPreseed(s)
+	case "bootstrap":
+		return runBootstrap(s)
 	case "two-mismatch-then-honest":
 		return runTwoMismatch(s)
 	}
